@@ -103,6 +103,30 @@ def nearestOK (inf areas : IRaster) (cells : List Cell) (dirs : Dirs) (ns ew : R
         | none => false)
     | none => false)
 
+/-! #### "Outside every quarantine area" for ANY area ids (finding F30)
+
+  quarantine.hpp: "Different quarantine areas are represented by different integers. 0 in the
+  raster means no quarantine area." The areas of a raster are its POSITIVE ids (the only ones
+  `quarantine_boundary` registers). A cell whose id is not positive - 0, or a negative value such
+  as a nodata marker - or is not the id of any area of the raster lies outside every quarantine
+  area. `specEscaped` above is this definition on rasters whose infected cells carry no negative id
+  (`C18_escape_iff_infected_nonneg`). -/
+
+/-- The cell lies outside every quarantine area of `areas`. -/
+def outsideEveryArea (areas : IRaster) (c : Cell) : Bool :=
+  decide (areas.at c.1 c.2 ≤ 0) || (specAreaBox areas (areas.at c.1 c.2)).isNone
+
+/-- Escape by definition, for any area ids: some infected listed cell lies outside every
+    quarantine area. -/
+def specEscapedFull (inf areas : IRaster) (cells : List Cell) : Bool :=
+  (presentCells inf cells).any (outsideEveryArea areas)
+
+/-- Region of the open finding F30 (the negation of hypothesis `hnn` of
+    `C18_escape_iff_infected_nonneg` / `C18_nearest_infected_nonneg`): some infected listed cell has
+    a negative area id. -/
+def negativeIdAtInfected (inf areas : IRaster) (cells : List Cell) : Bool :=
+  (presentCells inf cells).any fun c => decide (areas.at c.1 c.2 < 0)
+
 def sumR : List Rat → Rat
   | [] => 0
   | x :: xs => x + sumR xs
